@@ -161,6 +161,12 @@ func (a *remoteAuthorizer) Execute(ctx heimdall.Context, sub *subject.Subject) e
 			var ai authorizationInformation
 
 			if err = json.Unmarshal(entry, &ai); err == nil {
+				// the entry may have been stored by an instance with other expressions (the key does not
+				// contain them): it is reused only if it satisfies the expressions in force here
+				if err = a.verify(ctx, ai.Payload); err != nil {
+					return err
+				}
+
 				logger.Debug().Msg("Reusing authorization information from cache")
 
 				authInfo = &ai
